@@ -1212,6 +1212,12 @@ class FuncLowerer:
             cur = st[1] if is_ptr else st
             if cur[0] == 'atomic':
                 return x   # std::atomic<T> -> std::__atomic_base<T>: same object
+            if cur[0] == 'rec' and u.records.get(cur[1]) is None and cur[1] in u.cfg.outside_methods:
+                # allow-listed record outside the AST (an opaque blob whose members are contract stubs): its bases are the same
+                # object seen through another stub type; only single inheritance chains at offset 0 are accepted (std smart pointers)
+                if is_ptr:
+                    return '((%s)(%s))' % (u.ctype(ty), x)
+                return '(*(%s)%s)' % (u.ctype(('ptr', u.strip_ref(ty))), addr_of(x))
             for step in e.get('path', []):
                 nm = '__base_' + sanitize(norm_name(step['name']).split('::')[-1])
                 if cur[0] == 'rec':
@@ -1568,12 +1574,26 @@ class FuncLowerer:
         if name == 'swap':
             a, b = args
             ty = u.strip_ref(u.type_of(a))
-            if ty[0] not in ('b', 'ptr', 'enum'):
+            triv = ty[0] == 'rec' and (u.records.get(ty[1]) or {}).get('definitionData', {}).get('isTriviallyCopyable')
+            if ty[0] not in ('b', 'ptr', 'enum') and not triv:   # trivially copyable records: three struct copies, as std::swap does
                 abort('std::swap on non-scalar %r' % (ty,), e)
             t = self.fresh_tmp(ty)
             pa, pb = self.fresh_tmp(('ptr', ty)), self.fresh_tmp(('ptr', ty))
             return '(%s = %s, %s = %s, %s = *%s, *%s = *%s, *%s = %s, (void)0)' % (
                 pa, self.addr(a), pb, self.addr(b), t, pa, pa, pb, pb, t)
+        if name == 'exchange' and len(args) == 2:
+            # std::exchange(obj, new_value) on scalars: old = obj; obj = new_value; yields old
+            a, b = args
+            ty = u.strip_ref(u.type_of(a))
+            if ty[0] not in ('b', 'ptr', 'enum'):
+                abort('std::exchange on non-scalar %r' % (ty,), e)
+            t = self.fresh_tmp(ty)
+            pa = self.fresh_tmp(('ptr', ty))
+            nb = b
+            while nb.get('kind') in ('MaterializeTemporaryExpr', 'ExprWithCleanups') and nb.get('inner'):
+                nb = nb['inner'][0]
+            vb = '((%s)0)' % u.ctype(ty) if nb.get('kind') == 'CXXNullPtrLiteralExpr' else '((%s)(%s))' % (u.ctype(ty), self.expr(nb))
+            return '(%s = %s, %s = *%s, *%s = %s, %s)' % (pa, self.addr(a), t, pa, pa, vb, t)
         if name == 'atomic_thread_fence':
             site = self.site('fence', 'fence')
             return 'vf_fence(%s, %s)' % (self.expr(args[0]), site)
@@ -1738,7 +1758,7 @@ class FuncLowerer:
                 r = h(self, rd, name, args, e)
                 if r is not None:
                     return r
-            abort('operator %s on a type outside the babylon AST' % name, e)
+            abort('operator %s on a type outside the babylon AST (%r)' % (name, a0t), e)
         qn = u.qualname(decl)
         if qn in u.cfg.drop_calls:
             return '((void)0)'
